@@ -12,7 +12,7 @@ for p in "${props[@]}"; do
     name=$(basename $patch .patch)
     if ! git -C /repo apply --check "$PWD/$patch" 2>/dev/null; then echo "SELFTEST $p/$name: patch does not apply"; rc=1; continue; fi
     git -C /repo apply "$PWD/$patch"
-    out=$(./check $p --tier quick -noreplay -out /tmp/selftest_out 2>&1); code=$?
+    out=$(./check $p --tier quick -noreplay -out /tmp/selftest_out ${SELFTEST_EXTRA:-} 2>&1); code=$?
     git -C /repo checkout -- . 
     failed=$(echo "$out" | grep -c '^VIOLATION')
     case "$name" in
